@@ -122,9 +122,6 @@ theorem crosses_norm (e : HE) (K : Finset Nat) : Crosses (normHE e) K ↔ Crosse
 
 theorem key_of_dir {t : Tri} {e : HE} (h : e ∈ dirs t) : normHE e ∈ keys t := mem_keys_iff.mpr ⟨e, h, rfl⟩
 
-theorem mem_edgesF {T : List Tri} {k : HE} : k ∈ edgesF T ↔ ∃ e ∈ heM T, normHE e = k := by
-  simp [edgesF]
-
 section main
 variable {T : List Tri} {rank parent A B : Nat → Nat}
 
